@@ -8,10 +8,10 @@ import os, json, shutil, collections
 import qv, hist, seqrun, common, foreign
 
 
-def gen(rng, d, n, prefix, depth2_ratio=0.3, mix=None):
+def gen(rng, d, n, prefix, depth2_ratio=0.3, mix=None, allow_v2=False):
     cases = []
     for k in range(n):
-        top = foreign.rand_desc(rng, with_backing=rng.random() < 0.7, allow_v2=False, cbs=[9, 9, 10, 10, 11, 12])
+        top = foreign.rand_desc(rng, with_backing=rng.random() < 0.7, allow_v2=allow_v2, cbs=[9, 9, 10, 10, 11, 12])
         descs = [top]
         if top.backing_file:
             b = foreign.backing_desc(rng, top)
@@ -48,7 +48,7 @@ def gen(rng, d, n, prefix, depth2_ratio=0.3, mix=None):
     return cases
 
 
-def run_foreign(prop, tier, seed, projections, n, explanation, mix=None, extra_judge=None, plain_n=0, level='exploration', gate=None, sim_n=0):
+def run_foreign(prop, tier, seed, projections, n, explanation, mix=None, extra_judge=None, plain_n=0, level='exploration', gate=None, sim_n=0, allow_v2=False):
     t = qv.Timer()
     rng = qv.Rng(seed)
     gate = gate or {'ok': True, 'obligations': 0, 'discharged': 0, 'failed': None, 'axioms': [], 'checker_cmd': '', 'gen': {}}
@@ -57,7 +57,7 @@ def run_foreign(prop, tier, seed, projections, n, explanation, mix=None, extra_j
         print(out[-3000:])
         return 2
     d0 = qv.workdir(prop.lower() + 'img')
-    cases = gen(rng, d0, n, prop.lower() + '_', mix=mix)
+    cases = gen(rng, d0, n, prop.lower() + '_', mix=mix, allow_v2=allow_v2)
     if plain_n:
         for c in seqrun.gen_cases(rng, plain_n, 30, prop.lower() + 'p_', cbs=[9, 9, 9, 10, 10, 11, 12, 13, 16] if tier != 'quick' else [9, 9, 10, 10, 11, 12, 13], mix=mix):
             c['descs'] = None
